@@ -603,7 +603,7 @@ pub fn generate(seed: u64, tier: Tier, p: &Profile) -> Scenario {
             let addr = if g.r.chance(1, 2) { AddrSpec::Ent(Cred::Script(s)) } else { AddrSpec::Base(Cred::Script(s), Cred::Key(g.kid())) };
             let u = g.new_utxo(addr, coin, vec![], None, None);
             let wit = g.wit_native(s, true);
-            plan.pre.push(Op::InScript { utxo: u, wit, by_utxo: g.r.chance(1, 2) });
+            plan.pre.push(Op::InScript { utxo: u, wit, by_utxo: g.r.chance(1, 2), mistaken: None });
             explicit_value += coin as u128;
         }
     }
@@ -632,7 +632,15 @@ pub fn generate(seed: u64, tier: Tier, p: &Profile) -> Scenario {
             let du = match du_self {
                 None => DatumUse::Witness(d),
                 Some(false) => DatumUse::None,
-                Some(true) => DatumUse::Ref(u),
+                // "the datum is in a reference input": the spent UTxO itself, or another UTxO that carries the same
+                // datum inline (listed for the script to read; the spent UTxO has its datum inline anyway)
+                Some(true) => {
+                    if g.r.chance(1, 2) {
+                        DatumUse::Ref(u)
+                    } else {
+                        DatumUse::Ref(g.datum_holder_of(d))
+                    }
+                }
             };
             let mut wit = g.wit_plutus(s, du);
             // two UTxOs of one validator are often spent with the very same redeemer (same payload, same budget)
@@ -669,9 +677,16 @@ pub fn generate(seed: u64, tier: Tier, p: &Profile) -> Scenario {
                 // (either order of entry points); the later witness is the one that counts
                 let mut first = wit.clone();
                 first.red = g.next_red();
-                plan.pre.push(Op::InScript { utxo: u, wit: first, by_utxo: g.r.chance(1, 2) });
+                plan.pre.push(Op::InScript { utxo: u, wit: first, by_utxo: g.r.chance(1, 2), mistaken: None });
             }
-            plan.pre.push(Op::InScript { utxo: u, wit, by_utxo: g.r.chance(1, 2) });
+            let mistaken = if pm(&mut g.r, p.corrections) {
+                // first handed over with another Plutus script of the world by mistake
+                let cands: Vec<u16> = (0..g.w.scripts.len() as u16).filter(|s| *s != wit.script && g.w.scripts[*s as usize].is_plutus()).collect();
+                if cands.is_empty() { None } else { Some(*g.r.pick(&cands)) }
+            } else {
+                None
+            };
+            plan.pre.push(Op::InScript { utxo: u, wit, by_utxo: g.r.chance(1, 2), mistaken });
             plan.uses_plutus = true;
             plan.langs |= 1 << (lang - 1);
             explicit_value += coin as u128;
@@ -1018,7 +1033,31 @@ pub fn generate(seed: u64, tier: Tier, p: &Profile) -> Scenario {
     if pm(&mut g.r, p.removals) {
         // removals, the deprecated whole-collection setters and the deprecated mint entry points
         for _ in 0..(1 + g.r.below(2)) {
-            match g.r.below(9) {
+            match g.r.below(12) {
+                8..=10 => {
+                    // everything of one kind is taken out again - now and then right after the builder was asked for its
+                    // figures (a figure it remembers must not survive the removal) - and sometimes one item comes back
+                    if g.r.chance(1, 2) {
+                        plan.pre_tail.push(Op::Observe);
+                    }
+                    match g.r.below(3) {
+                        0 => {
+                            plan.pre_tail.push(Op::RemoveCerts);
+                            if g.r.chance(1, 3) {
+                                let (c, w) = g.cert(false);
+                                plan.pre_tail.push(Op::Cert(c, w));
+                            }
+                        }
+                        1 => {
+                            plan.pre_tail.push(Op::RemoveWithdrawals);
+                            if g.r.chance(1, 3) {
+                                let k = g.kid();
+                                plan.pre_tail.push(Op::Wdr(Cred::Key(k), 1 + g.amount() % 5_000_000, None));
+                            }
+                        }
+                        _ => plan.pre_tail.push(Op::RemoveMint),
+                    }
+                }
                 0 => plan.pre.push(Op::RemoveTtl),
                 1 => plan.pre.push(Op::RemoveStart),
                 2 => plan.pre.push(Op::RemoveAux),
